@@ -68,7 +68,13 @@ Routes == { [name |-> "new",          dom |-> "i64",  checked |-> TRUE, total |-
             [name |-> "smile_i128",   dom |-> "i128", checked |-> TRUE, total |-> FALSE],
             [name |-> "smile_u128",   dom |-> "u128", checked |-> TRUE, total |-> FALSE],
             [name |-> "smile_any_u128", dom |-> "u128", checked |-> TRUE, total |-> FALSE],
-            [name |-> "smile_list_u128", dom |-> "u128", checked |-> TRUE, total |-> FALSE] }
+            [name |-> "smile_list_u128", dom |-> "u128", checked |-> TRUE, total |-> FALSE],
+            (* the PLAIN parameter decoders of generated servers (path / query / header; single, optional, list) *)
+            [name |-> "dec_param",      dom |-> "text", checked |-> TRUE, total |-> TRUE],
+            [name |-> "dec_param_opt",  dom |-> "text", checked |-> TRUE, total |-> TRUE],
+            [name |-> "dec_param_seq",  dom |-> "text", checked |-> TRUE, total |-> TRUE],
+            [name |-> "dec_header",     dom |-> "text", checked |-> TRUE, total |-> TRUE],
+            [name |-> "dec_header_opt", dom |-> "text", checked |-> TRUE, total |-> TRUE] }
 
 (* Mech: "ok" keeps the value; the unchecked routes accept everything in their (narrow) domain.            *)
 (* total = FALSE marks a route whose acceptance the property does not demand: a dynamic value built from a  *)
